@@ -96,9 +96,14 @@ def run(idx: Index, rep: Report, tier: str) -> None:
         if m is None:
             raise AnalysisError(f"anchor vanished: AbstractTaskNetwork.{meth}")
         rep.note_function(m.qualname)
-        tests = [i for i in walk_no_nested(m.node) if isinstance(i, ast.If) and isinstance(i.test, ast.Call) and call_name(i.test) == "isinstance"]
-        ok = bool(tests) and norm(tests[0].test.args[1]) == want and any(isinstance(r, ast.Return) and isinstance(r.value, ast.Constant) and r.value.value is None for r in ast.walk(m.node))
-        rep.check(ok, rule2, f"{meth}() answers only for a {want} and None otherwise", m.loc(), construct=norm(tests[0].test) if tests else "", function=m.qualname)
+        from ..rules2 import path_facts
+
+        mcfg = cfg_of(m)
+        answers = [nd for nd in mcfg.nodes if nd.kind == "return" and nd.ast.value is not None and not (isinstance(nd.ast.value, ast.Constant) and nd.ast.value.value is None)]
+        nones = [nd for nd in mcfg.nodes if nd.kind == "return" and (nd.ast.value is None or (isinstance(nd.ast.value, ast.Constant) and nd.ast.value.value is None))]
+        guarded = [any(txt.startswith("isinstance(") and txt.endswith(f", {want})") and val for txt, val in path_facts(mcfg, nd)) for nd in answers]
+        ok = bool(answers) and all(guarded) and bool(nones)
+        rep.check(ok, rule2, f"{meth}() answers only for a {want} and None otherwise", m.loc(), construct=f"{len(answers)} answer(s) under isinstance(…, {want}); {len(nones)} return None", function=m.qualname)
     tm = tn.lookup("_ordering")
     ok = tm is not None and any(isinstance(c, ast.Call) and call_name(c) == "ordering" and "temporal_constraints()" in norm(c) and "subtasks" in norm(c) for c in walk_no_nested(tm.node))
     rep.check(ok, rule2, "the classification sees all subtasks and all temporal constraints", tm.loc() if tm else tn.loc(), construct="ordering(subtask ids, self.temporal_constraints())", function=tn.qualname)
